@@ -23,7 +23,7 @@ def run(eng: Engine, ck: Check):
         for c in calls_in(f.node):
             if call_name(c) in ('set_result', 'set_exception') and isinstance(c.func, ast.Attribute):
                 sites.append((f, c))
-    ck.floor('R-C12-FUTURE', len(sites), 4)
+    ck.floor('R-C12-FUTURE', len(sites), 3)
     for f, c in sites:
         ck.visited(f)
         recv = unparse(c.func.value)
